@@ -404,7 +404,7 @@ def minActiveLen (outLens : List Nat) (mask : List Bool) : Option Nat :=
     (fun acc p => if p.2 then (match acc with | none => some p.1 | some a => some (min a p.1)) else acc) none
 
 /-- fuel when no channel is active: nothing is written, the loop is only bounded by `end_idx` -/
-def idleFuel : Nat := 100000000
+def idleFuel : Nat := 1000000
 
 /-- turn an evaluation fault into the outcome of the call -/
 def faultOutcome {α : Type} (f : Outcome Unit) : Outcome α :=
@@ -412,6 +412,12 @@ def faultOutcome {α : Type} (f : Outcome Unit) : Outcome α :=
   | .panic m => .panic m
   | .abort m => .abort m
   | _ => .panic "?"
+
+/- What a fixed-input call ends in when its stepping loop has not reached `end_idx` within the room of the output buffers:
+with an active channel the next write is out of range (checked index for the sinc types, unchecked for the polynomial
+ones).  With NO active channel nothing is written and the loop just keeps running; that only happens when the position
+diverges (a ramp whose step has turned negative, finding D4) — the real loop then runs until the position leaves the
+`isize` range (overflow panic in a build with overflow checks; a release build spins on): "position diverges". -/
 
 /-- second half of a fixed-INPUT call: `s` already holds the refilled buffer (`fill` = frames loaded).
 `fuel` = room in the output buffers. -/
@@ -425,7 +431,8 @@ def AState.finishIn (s : AState ρ σ) (mask : List Bool) (fuel : Nat) : AState 
   let r := stepsIn inc (RNum.ofInt endIdx) fuel t0 s.lastIndex
   let ps := r.1
   if r.2.2 then
-    (s, if s.kind.isSinc then .panic "wave_out[n]" else .abort "get_unchecked_mut(n)")
+    (s, (if mask.any id then (if s.kind.isSinc then .panic "wave_out[n]" else .abort "get_unchecked_mut(n)")
+         else .panic "position diverges"))
   else
     match evalChannels s s.buf mask ps with
     | .error f => (s, faultOutcome f)
